@@ -258,7 +258,7 @@ def buildLoop (src : Chain) (sel : Nat â†’ Option Nat) : Nat â†’ Ptr â†’ Chain â
       | none => buildLoop src sel k (node.next src.nodes.length) dst m
       | some y =>
         let r := addLast dst y m
-        if r.1 != .ok then (r.1, dst, destroy dst r.2.2)
+        if r.1 != .ok then (r.1, {}, destroy r.2.1 r.2.2)   -- the partial result is gone
         else buildLoop src sel k (node.next src.nodes.length) r.2.1 r.2.2
 
 /-- `cc_list_sublist` -/
